@@ -149,6 +149,80 @@ def absorb_private_helpers(modules, rounds=3):
     return absorbed
 
 
+def resolve_self_aliases(modules):
+    """Copy propagation for locals that merely name a `self.<attr>[.<attr>...]` chain: `sock = self._socket; sock.close()` is analysed as
+    `self._socket.close()`.  A local qualifies when it is assigned exactly once in its function (a plain `name = chain`), is not a parameter, is never
+    stored in any other way, and the function never assigns to the chain or to a prefix of it (so the name and the chain denote the same object
+    wherever the name is used).  Uses that come textually after the assignment are replaced; the assignment itself stays.  Returns the number of
+    resolved aliases."""
+    count = 0
+
+    def chain_of(v):
+        parts = []
+        cur = v
+        while isinstance(cur, ast.Attribute):
+            parts.append(cur.attr)
+            cur = cur.value
+        if parts and isinstance(cur, ast.Name) and cur.id == 'self':
+            return tuple(reversed(parts))
+        return None
+    for mod in modules.values():
+        for fn in ast.walk(mod.tree):
+            if not isinstance(fn, (ast.FunctionDef, ast.AsyncFunctionDef)):
+                continue
+            a = fn.args
+            params = {x.arg for x in a.posonlyargs + a.args + a.kwonlyargs} | ({a.vararg.arg} if a.vararg else set()) | ({a.kwarg.arg} if a.kwarg else set())
+            stores = {}
+            other_binding = set()
+            for n in ast.walk(fn):
+                if isinstance(n, ast.Name) and isinstance(n.ctx, (ast.Store, ast.Del)):
+                    stores.setdefault(n.id, []).append(n)
+                if isinstance(n, (ast.Global, ast.Nonlocal)):
+                    other_binding.update(n.names)
+                if isinstance(n, ast.ExceptHandler) and n.name:
+                    other_binding.add(n.name)
+                if isinstance(n, (ast.FunctionDef, ast.AsyncFunctionDef, ast.ClassDef)) and n is not fn:
+                    other_binding.add(n.name)
+            for st in ast.walk(fn):
+                if not (isinstance(st, ast.Assign) and len(st.targets) == 1 and isinstance(st.targets[0], ast.Name)):
+                    continue
+                name = st.targets[0].id
+                chain = chain_of(st.value)
+                if chain is None or name in params or name in other_binding or len(stores.get(name, [])) != 1:
+                    continue
+                later_store = False
+                for n in ast.walk(fn):
+                    if isinstance(n, ast.Attribute) and isinstance(n.ctx, (ast.Store, ast.Del)) and (n.lineno, n.col_offset) > (st.lineno, st.col_offset):
+                        c = chain_of(n)
+                        if c and chain[:len(c)] == c:
+                            later_store = True
+                if later_store:
+                    continue
+                used = False
+                early_use = any(isinstance(n, ast.Name) and n.id == name and isinstance(n.ctx, ast.Load) and (n.lineno, n.col_offset) <= (st.lineno, st.col_offset) for n in ast.walk(fn))
+                for n in ast.walk(fn):
+                    if isinstance(n, ast.Name) and n.id == name and isinstance(n.ctx, ast.Load) and (n.lineno, n.col_offset) > (st.lineno, st.col_offset):
+                        # rewrite this node in place into the chain
+                        new = copy.deepcopy(st.value)
+                        for x in ast.walk(new):
+                            if hasattr(x, 'lineno'):
+                                x.lineno, x.col_offset = n.lineno, n.col_offset
+                                x.end_lineno, x.end_col_offset = getattr(n, 'end_lineno', n.lineno), getattr(n, 'end_col_offset', n.col_offset)
+                        n.__class__ = ast.Attribute
+                        n.__dict__.clear()
+                        n.__dict__.update(new.__dict__)
+                        used = True
+                if used:
+                    count += 1
+                    if not early_use:
+                        # every use has been rewritten: the assignment is a dead store now
+                        st.__class__ = ast.Pass
+                        keep = {k: getattr(st, k) for k in ('lineno', 'col_offset', 'end_lineno', 'end_col_offset') if hasattr(st, k)}
+                        st.__dict__.clear()
+                        st.__dict__.update(keep)
+    return count
+
+
 class Module:
     def __init__(self, name, path, relpath, src):
         self.name = name
@@ -352,6 +426,7 @@ class Program:
             if f'{self.package}.{m}' not in self.modules:
                 raise AnalysisError(f'mandatory module {self.package}.{m} is missing')
         self.absorbed = absorb_private_helpers(self.modules)
+        self.aliases_resolved = resolve_self_aliases(self.modules)
         for mod in self.modules.values():
             self._index_module(mod)
         for cls in list(self.classes.values()):
